@@ -387,6 +387,188 @@ theorem complete_snapshot_reports_one (scale : Int) (s : Snap) (hc : s.Consisten
   rw [this]
   exact wsumFrom_const scale ws 0
 
+/-! ### Missing stages: the default weight is materialised by the loader and read by the monitor -/
+
+private theorem givenUnits_length (gs : List (Option Int)) : (givenUnits gs).length = gs.length := by
+  induction gs with
+  | nil => rfl
+  | cons g r ih => cases g <;> simp [givenUnits, ih]
+
+/-- position by position: a given stage contributes its weight, a missing one 0 -/
+theorem givenUnits_eq_map (gs : List (Option Int)) : givenUnits gs = gs.map (fun o => o.getD 0) := by
+  induction gs with
+  | nil => rfl
+  | cons g r ih => cases g <;> simp [givenUnits, ih]
+
+private theorem mem_givenUnits (gs : List (Option Int)) (x : Int) (hx : x ∈ givenUnits gs) :
+    x = 0 ∨ some x ∈ gs := by
+  induction gs with
+  | nil => simp [givenUnits] at hx
+  | cons g r ih =>
+    cases g with
+    | none =>
+      simp only [givenUnits, List.mem_cons] at hx
+      rcases hx with h | h
+      · exact Or.inl h
+      · rcases ih h with h' | h'
+        · exact Or.inl h'
+        · exact Or.inr (List.mem_cons_of_mem _ h')
+    | some u =>
+      simp only [givenUnits, List.mem_cons] at hx
+      rcases hx with h | h
+      · subst h; exact Or.inr List.mem_cons_self
+      · rcases ih h with h' | h'
+        · exact Or.inl h'
+        · exact Or.inr (List.mem_cons_of_mem _ h')
+
+/-- Clause 1 with missing stages: whenever the weights a package GIVES are non-negative and sum to
+one, the loaded weights are, position by position, the given weight for a stage that has one
+and 0 for a stage without `status-report` entry / without `stage-weight` — for every number
+of stages and every given/missing assignment. -/
+theorem missing_stages_weigh_zero (gs : List (Option Int)) (hs : sum (givenUnits gs) = one)
+    (hp : ∀ u, some u ∈ gs → 0 ≤ u) : load gs = gs.map (fun o => o.getD 0) := by
+  unfold load
+  rw [proper_weights_kept (givenUnits gs) hs, givenUnits_eq_map]
+  intro x hx
+  rcases mem_givenUnits gs x hx with h | h
+  · omega
+  · exact hp x h
+
+/-- The report the loader leaves behind has a `stage-weight` for every stage … -/
+theorem loaded_report_complete (gs : List (Option Int)) : ∀ e ∈ loadReport gs, e.isSome = true := by
+  intro e he
+  simp only [loadReport, List.mem_map] at he
+  obtain ⟨x, _, rfl⟩ := he
+  rfl
+
+private theorem readReport_map_some (n : Nat) (l : List Int) : readReport n (l.map some) = l := by
+  induction l with
+  | nil => rfl
+  | cons x r ih => simp [readReport, ih]
+
+/-- … so `StatusMonitor`, reading that report key by key, never meets its "malformed" sentinel and
+reports with exactly the loaded list (position by position), missing stages included. -/
+theorem monitor_reads_loaded_report (gs : List (Option Int)) (hn : 1 ≤ gs.length) :
+    monitorFromReport (loadReport gs) = some (load gs) := by
+  unfold monitorFromReport loadReport
+  rw [readReport_map_some]
+  exact monitor_keeps_loaded (givenUnits gs) (by rw [givenUnits_length]; exact hn)
+
+/-- Both together, as the property states it: given weights that sum to one are the weights used
+for reporting, a missing stage reports with weight 0. -/
+theorem monitor_uses_given_weights (gs : List (Option Int)) (hn : 1 ≤ gs.length)
+    (hs : sum (givenUnits gs) = one) (hp : ∀ u, some u ∈ gs → 0 ≤ u) :
+    monitorFromReport (loadReport gs) = some (gs.map (fun o => o.getD 0)) := by
+  rw [monitor_reads_loaded_report gs hn, missing_stages_weigh_zero gs hs hp]
+
+/-! ### Per-stage progress from the controller's bookkeeping -/
+
+private theorem finishedCount_le (s : List Bool) : finishedCount s ≤ s.length := by
+  induction s with
+  | nil => simp [finishedCount]
+  | cons b r ih => cases b <;> simp [finishedCount] <;> omega
+
+/-- `get_stage_status`: finished ⊆ population, so the stage progress `finished/population` is a
+value in `[0, 1]` … -/
+theorem stage_progress_in_unit_interval (s : List Bool) : (stageProgress s).1 ≤ (stageProgress s).2 :=
+  finishedCount_le s
+
+/-- … after every history of component completions, population growth (DoWhile iterations) and
+earlier queries, for every stage; and its denominator is the CURRENT population. -/
+theorem stage_progress_in_unit_interval_history (c : Ctl) (h : List CtlOp) (k : Nat) :
+    (queryStage (run c h) k).1 ≤ (queryStage (run c h) k).2 ∧
+      (queryStage (run c h) k).2 = ((run c h).stages.getD k []).length :=
+  ⟨finishedCount_le _, rfl⟩
+
+/-- a stage all of whose components are finished has progress `population/population` = 1 -/
+theorem stage_complete_progress_one (s : List Bool) (h : ∀ b ∈ s, b = true) :
+    (stageProgress s).1 = (stageProgress s).2 := by
+  induction s with
+  | nil => rfl
+  | cons b r ih =>
+    have hb : b = true := h b List.mem_cons_self
+    have hr := ih (fun x hx => h x (List.mem_cons_of_mem _ hx))
+    subst hb
+    simp only [stageProgress, finishedCount, List.length_cons] at *
+    omega
+
+/-- a new DoWhile iteration keeps the numerator and adds to the denominator -/
+theorem grow_adds_to_population (s : List Bool) (m : Nat) :
+    stageProgress (s ++ List.replicate m false) = ((stageProgress s).1, (stageProgress s).2 + m) := by
+  have h : ∀ t : List Bool, finishedCount (t ++ List.replicate m false) = finishedCount t := by
+    intro t
+    induction t with
+    | nil =>
+      induction m with
+      | zero => rfl
+      | succ m ih => simpa [List.replicate_succ, finishedCount] using ih
+    | cons b r ih => cases b <;> simp [finishedCount, ih]
+  simp [stageProgress, h]
+
+private theorem prodLen_nonneg (ss : List (List Bool)) : 0 ≤ prodLen ss := by
+  induction ss with
+  | nil => simp [prodLen]
+  | cons s r ih => exact Int.mul_nonneg (by omega) ih
+
+private theorem len_dvd_prodLen (ss : List (List Bool)) (s : List Bool) (hs : s ∈ ss) :
+    (s.length : Int) ∣ prodLen ss := by
+  induction ss with
+  | nil => simp at hs
+  | cons t r ih =>
+    rcases List.mem_cons.mp hs with h | h
+    · subst h; exact Int.dvd_mul_right _ _
+    · exact Int.dvd_trans (ih h) (Int.dvd_mul_left _ _)
+
+/-- the stage fractions over a common scale `D ≥ 0` satisfy `0 ≤ p ≤ D` (hypothesis of `progress_bounds`) -/
+theorem scaled_bounds (D : Int) (hD : 0 ≤ D) (s : List Bool) (hne : s ≠ []) :
+    0 ≤ scaled D s ∧ scaled D s ≤ D := by
+  have hlen : 0 < (s.length : Int) := by
+    cases s with
+    | nil => exact absurd rfl hne
+    | cons b r => simp only [List.length_cons]; omega
+  have hq : 0 ≤ D / (s.length : Int) := Int.ediv_nonneg hD (by omega)
+  have hf : (finishedCount s : Int) ≤ (s.length : Int) := by
+    have := finishedCount_le s; omega
+  have h1 : (s.length : Int) * (D / (s.length : Int)) ≤ D := Int.mul_ediv_self_le (by omega)
+  have h2 : (finishedCount s : Int) * (D / (s.length : Int)) ≤ (s.length : Int) * (D / (s.length : Int)) :=
+    Int.mul_le_mul_of_nonneg_right hf hq
+  unfold scaled
+  exact ⟨Int.mul_nonneg (by omega) hq, by omega⟩
+
+/-- End to end: per-stage progress values that come from the controller's bookkeeping (every stage
+has at least one component) and loaded weights give `0 ≤ total ≤ 1 + 1e-6`
+(numerators over `prodLen stages · one`). -/
+theorem total_of_component_progress_in_unit_interval (stages : List (List Bool)) (ws : List Int)
+    (hne : ∀ s ∈ stages, s ≠ []) (hn : 1 ≤ ws.length) (hl : stages.length = ws.length) :
+    0 ≤ totalOfStages stages (normalize ws) ∧
+      totalOfStages stages (normalize ws) ≤ prodLen stages * (one + tol) := by
+  unfold totalOfStages
+  apply total_progress_in_unit_interval (prodLen stages) (prodLen_nonneg stages) ws _ hn (by simpa using hl)
+  intro p hp
+  obtain ⟨s, hs, rfl⟩ := List.mem_map.mp hp
+  exact scaled_bounds _ (prodLen_nonneg stages) s (hne s hs)
+
+/-- … and once every component of every stage has finished the total is exactly `Σ w` (= one). -/
+theorem total_of_complete_stages (stages : List (List Bool)) (ws : List Int)
+    (hl : stages.length = ws.length)
+    (hall : ∀ s ∈ stages, ∀ b ∈ s, b = true) :
+    totalOfStages stages ws = prodLen stages * sum ws := by
+  unfold totalOfStages
+  have hp : ∀ e ∈ (stages.map (scaled (prodLen stages))).zip ws, e.1 = prodLen stages := by
+    intro e he
+    have h1 := (List.of_mem_zip he).1
+    obtain ⟨s, hs, hse⟩ := List.mem_map.mp h1
+    rw [← hse]
+    unfold scaled
+    have hc := stage_complete_progress_one s (hall s hs)
+    simp only [stageProgress] at hc
+    rw [hc]
+    exact Int.mul_ediv_cancel' (len_dvd_prodLen stages s hs)
+  rw [progress_complete (prodLen stages) _ hp]
+  have : ((stages.map (scaled (prodLen stages))).zip ws).map Prod.snd = ws := by
+    apply List.map_snd_zip; simp; omega
+  rw [this]
+
 -- non-vacuity: hypotheses are met by concrete non-trivial inputs
 example : normalize [333300000, 333300000, 333400000] = [333300000, 333300000, 333400000] := by decide
 example : normalize [500400000, 500400000] = fallback 2 := by decide
@@ -401,5 +583,15 @@ example : Snap.Consistent ⟨1, [1], [0], readOf [1000, 400, 0]⟩ 1000 :=
    by intro k hk; simp at hk; subst hk; decide,
    by intro k h1 h2; match k with | 0 => simp at h2 | 1 => simp at h1 | k + 2 => cases k <;> simp [readOf]⟩
 example : checkTotal 1000 1 [1] [0] (readOf [1000, 400, 0]) [100000000, 800000000, 100000000] = 420 * one := by decide
+
+-- missing stages: [0.4, 0.6, missing] is loaded as [0.4, 0.6, 0.0] and reported with as such
+example : load [some 400000000, some 600000000, none] = [400000000, 600000000, 0] := by decide
+example : monitorFromReport (loadReport [none, some 250000000, some 750000000]) = some [0, 250000000, 750000000] := by
+  decide
+-- a DoWhile stage: 1 of 1 finished, the next iteration adds two components, both finish later
+example : queryStage (run ⟨[[false], [false]], [none, none]⟩ [.query 1, .fin 1 0, .grow 1 2, .query 1]) 1 = (1, 3) := by
+  decide
+example : totalOfStages [[true], [true, false, false]] [250000000, 750000000] = 3 * 250000000 + 1 * 750000000 := by
+  decide
 
 end St4sd.C20
